@@ -94,6 +94,14 @@ def check_c03(prop, tier, seed):
             it['flood'] = True
             nfl += 1
     v.extra['flooded_replies'] = nfl
+    # and the other way round: a statement of many megabytes to a server that takes it late (simple protocol only)
+    nfq = 0
+    for it in items:
+        if not it['tls'] and not it.get('flood') and it['id'] % 5 == 3 and not any(k in '123tns' for k, _ in it['stream']) \
+                and nfq < {'quick': 8, 'thorough': 40}[tier]:
+            it['flood_req'] = True
+            nfq += 1
+    v.extra['flooded_requests'] = nfq
     results = core.run_parallel(relay.run_relay, items, workers=14)
     recs = []
     for it, r in zip(items, results):
